@@ -751,6 +751,7 @@ def _edit_method_table(src: str) -> str:
 
 
 KNOCKOUTS = [
+    Knockout("dm-controlled-gate-drops-determinism", "graphiq/backends/density_matrix/state.py", sub_once("        outcome = self.apply_measurement(projectors, measurement_determinism)\n        if outcome == 1:\n            self.apply_unitary(target_gate)", "        outcome = self.apply_measurement(projectors)\n        if outcome == 1:\n            self.apply_unitary(target_gate)"), "sibling.determinism", "without it"),
     Knockout("stabilizer-z-on-raw-register-number", STAB, sub_once("            state.apply_sigmaz(q_index(op.register, op.reg_type))\n", "            state.apply_sigmaz(op.register)\n"), "sibling.qindex", "raw"),
     Knockout("method-table-phase-dagger-entry", STAB, _edit_method_table, "sibling.gate-table", "PhaseDagger"),
     Knockout("dm-forced-one-test-inverted", "graphiq/backends/density_matrix/state.py", sub_once("                if not np.isclose(probs[1], 0.0):", "                if np.isclose(probs[1], 0.0):"), "sibling.determinism-map", "possible"),
